@@ -125,12 +125,70 @@ def walk(b, dsg, ctx, taken, leaves, seen, ref_adm, props, depth=0):
             walk(b, d2, ctx, t2, leaves, seen, ref_adm, props, depth + 1)
 
 
-def choice_member(desc, tier, seed, props=('C02', 'C06')):
+def reinit_member(desc, tier, seed, props=('C02',)):
+    """History: a graph that has been initialised once is edited (one more derivation edge, from an option of the
+    first choice to a node that so far only another option derives) and initialised again; the walk over all choice
+    orders then has to agree with the closure semantics of the EDITED description."""
+    if desc.constraints or desc.conn_choices or not desc.choices:
+        return Ctx(desc).result()
+    succ = {}
+    for u, v in desc.all_edges():
+        succ.setdefault(u, set()).add(v)
+    for c in desc.choices:
+        succ.setdefault(c.origin, set())
+    opts_of = {c.cid: list(c.options) for c in desc.choices}
+
+    def below(n):      # everything a node can lead to (derivations and any option of choices on the way)
+        seen, todo = set(), [n]
+        while todo:
+            x = todo.pop()
+            if x in seen:
+                continue
+            seen.add(x)
+            todo += list(succ.get(x, ()))
+            for c in desc.choices:
+                if c.origin == x:
+                    todo += list(c.options)
+        return seen
+    edit = None
+    for c in desc.choices:
+        if len(c.options) < 2:
+            continue
+        b_opt = c.options[-1]
+        mine = below(b_opt)
+        for other in c.options[:-1]:
+            for x in desc.nodes:
+                if x in below(other) and x not in mine and x != other and x not in desc.start and \
+                        not any(x in cc.options for cc in desc.choices) and b_opt not in below(x):
+                    edit = (b_opt, x)
+                    break
+            if edit:
+                break
+        if edit:
+            break
+    if edit is None:
+        return Ctx(desc).result()
+    desc2 = specsem.Desc(list(desc.nodes), list(desc.edges) + [edit], desc.start, choices=[tuple(c) for c in desc.choices],
+                         incompat=desc.incompat, dvs=[tuple(d) for d in desc.dvs], metrics=[tuple(m) for m in desc.metrics],
+                         label=f'{desc.label}+edge-{edit[0]}-{edit[1]}-after-initialisation')
+    try:
+        b = gen.Built(desc)
+        b.dsg.add_edge(b.node[edit[0]], b.node[edit[1]])
+        b.dsg = b.dsg.set_start_nodes({b.node[s_] for s_ in desc.start})
+        b.desc = desc2
+    except Exception as e:  # noqa
+        ctx = Ctx(desc2)
+        ctx.check('C02.re-initialisation-total', False, ['graph-api', 'edit'], f'{type(e).__name__}: {e}', (desc2.label, 'edit'))
+        return ctx.result()
+    return choice_member(desc2, tier, seed, props=props, prebuilt=b)
+
+
+def choice_member(desc, tier, seed, props=('C02', 'C06'), prebuilt=None):
     ctx = Ctx(desc)
     ref_adm = specsem.admissible_assignments(desc)
     ref_nodes = {specsem.closure(desc, a) for a in ref_adm}
     try:
-        b = gen.Built(desc)
+        b = prebuilt if prebuilt is not None else gen.Built(desc)
     except Exception as e:  # noqa
         ctx.check('C02.build', len(ref_adm) == 0, ['graph-api', 'build'], f'{type(e).__name__}: {e}', (desc.label, 'build'))
         return ctx.result()
